@@ -3,6 +3,7 @@ package main
 import (
 	"go/constant"
 	"go/token"
+	"go/types"
 	"math"
 	"strings"
 	"time"
@@ -366,6 +367,34 @@ func ruleTimeParams(r *Run) {
 						mulSec = true
 					}
 				}
+			}
+		})
+		// ... and the scaling happens in float64, before the conversion to an integer duration
+		// (time.Duration(f) * time.Second truncates 0.5 to 0 and 1.5 to 1s)
+		allInstrs(pdu, func(in ssa.Instruction) {
+			cv, ok := in.(*ssa.Convert)
+			if !ok || typeKey(cv.Type()) != "Duration" {
+				return
+			}
+			if bt, ok := cv.X.Type().Underlying().(*types.Basic); !ok || bt.Info()&types.IsFloat == 0 {
+				return
+			}
+			// the float that is converted must already be scaled: a product with float64(time.Second)
+			scaled := false
+			for _, lv := range valueLeaves(cv.X) {
+				if b, ok := lv.(*ssa.BinOp); ok && b.Op == token.MUL {
+					for _, operand := range []ssa.Value{b.X, b.Y} {
+						if c, ok := constOf(operand); ok {
+							if f, _ := constant.Float64Val(c); f == float64(time.Second) {
+								scaled = true
+							}
+						}
+					}
+				}
+			}
+			if !scaled {
+				bad = true
+				oc.Fail(r.pos(cv.Pos()), "a float number of seconds is converted to an integer duration before it is scaled by time.Second: fractions of a second are lost (0.5 -> 0)")
 			}
 		})
 		if !mulSec {
